@@ -69,6 +69,17 @@ def run(ctx):
                        "schedule": "capacity 3; thread 1: acquire (0); thread 0: acquire -> load head, load distance, read next[1] (stalls before CAS); "
                                    "thread 1: acquire (1), acquire (2), release 0, release 1, 32766 x (acquire, release); thread 0: CAS succeeds, returns 1; thread 0: acquire returns 2 while thread 1 holds 2"},
                       key=WRAP_KEY)
+    # known finding uis:speculative-next-read: replay the schedule of c09_uis_no_cell_conflict_refuted on the real set
+    spec_cmd = [exe, "one", "uis", "2", "acq|acq", "0,0,1,1,1,1,1,0,1"]
+    rc, sout = vlib.sh(" ".join("'%s'" % x for x in spec_cmd) + " 2>/dev/null", timeout=120)
+    sev = [l.split() for l in sout.split("\n") if l.startswith("E ")]
+    adj = [(a_, b_) for a_, b_ in zip(sev, sev[1:]) if a_[4] == "cell" and b_[4] == "cell" and a_[3] == b_[3] and a_[1] != b_[1]]
+    rs = vlib.run_pipelines([("specread:uis:0", ["'%s'" % x for x in spec_cmd])], driver)
+    ctx.cov["speculative_read_replay"] = {"adjacent_conflicting_cell_accesses": len(adj), "trace_equal_to_model": not rs["mismatch_lines"] and not rs["failed_jobs"]}
+    if adj and not rs["mismatch_lines"] and not rs["failed_jobs"]:
+        ctx.violation("UniqueIndexSet: a thread's speculative plain read of next[head] and the new owner's plain write of that cell are adjacent in an execution of the real set (data race on a plain cell; the value read is discarded)",
+                      {"harness_cmd": " ".join(spec_cmd), "adjacent_accesses": [(" ".join(a_), " ".join(b_)) for a_, b_ in adj],
+                       "theorems": ["c09_uis_no_cell_conflict_refuted"]}, key="uis:speculative-next-read")
     for lbl, cmd, rc, tail in r["failed_jobs"]:
         ctx.violation("correspondence job failed (harness or driver crashed): " + lbl, {"cmd": cmd, "rc": rc, "tail": tail[-600:]}, no_input=True)
     spec_mm = [m for m in r["mismatch_lines"] if "kind=spec" in m[2] and not m[0].startswith("wrap:")]
